@@ -422,6 +422,23 @@ fn m_enum_make(tier: Tier, i: u64) -> MCase {
     }
 }
 
+/// libFuzzer entry / from-bytes generators: bring decoded cases into the domains of the strategies
+pub fn m_fuzz_domain(c: &mut MCase) -> bool {
+    c.g.sanitize(0, 15, 34, None);
+    c.blossom %= 4;
+    true
+}
+pub fn f_fuzz_domain(c: &mut FCase) -> bool {
+    c.g.sanitize(2, 11, 36, Some(true));
+    true
+}
+pub fn m_bytes_strategy(_tier: Tier) -> BoxedStrategy<MCase> {
+    decoded_strategy(m_fuzz_domain)
+}
+pub fn f_bytes_strategy(_tier: Tier) -> BoxedStrategy<FCase> {
+    decoded_strategy(f_fuzz_domain)
+}
+
 pub fn property() -> Property {
     Property {
         id: "C15",
@@ -429,9 +446,9 @@ pub fn property() -> Property {
         assumptions: &["maximality is asserted only on undirected storage (greedy/maximum matching use neighbors(), i.e. outgoing edges, on directed storage; the property says direction is ignored for validity)"],
         both_profiles: false,
         subs: vec![
-            sub("matching/validity+maximum", 3_000_000, 30_000_000, m_strategy, m_run),
+            sub_fuzz("matching/validity+maximum", 3_000_000, 30_000_000, m_strategy, m_run, m_fuzz_domain), sub("matching/validity+maximum-from-bytes", 600_000, 10_000_000, m_bytes_strategy, m_run),
             sub_enum("matching/all-small-graphs", m_enum_count, m_enum_make, m_run),
-            sub("flow/ford_fulkerson", 3_000_000, 30_000_000, f_strategy, f_run),
+            sub_fuzz("flow/ford_fulkerson", 3_000_000, 30_000_000, f_strategy, f_run, f_fuzz_domain), sub("flow/ford_fulkerson-from-bytes", 600_000, 10_000_000, f_bytes_strategy, f_run),
         ],
     }
 }
